@@ -47,6 +47,7 @@ struct Pending { std::string cls, detail; };
 void init();                      // once per process
 void begin_run(const Env& e);     // forget everything, start a run
 void set_op(int opidx, int opkind);
+void deactivate();                // libc wrappers pass through again (before process exit)
 const Env& env();
 
 void* alloc(Provider p, size_t n);
